@@ -199,13 +199,17 @@ func (k *setCase[T]) ctx() string {
 }
 
 // out judges a dst-taking function: exactly the reference sequence.
-func (k *setCase[T]) out(op string, l lay, got, want, d []T) bool {
+func (k *setCase[T]) out(op, param string, l lay, got, want, d []T) bool {
 	c := k.c
-	c.Logf("%s(dst=%s, %s) -> %s", op, layNames[l], k.ctx(), show(got))
-	c.Add("calls/"+op, 1)
+	fn := op
+	op += param
+	if c.Logging() {
+		c.Logf("%s(dst=%s, %s) -> %s", op, layNames[l], k.ctx(), show(got))
+	}
+	c.Add("calls/"+fn, 1)
 	c.Add("dst_layout/"+layNames[l], 1)
 	if !eqSeq(got, want) {
-		c.Failf("result/"+op, "%s with dst=%s, %s: got %v, definition gives %v", op, layNames[l], k.ctx(), got, want)
+		c.Failf("result/"+fn, "%s with dst=%s, %s: got %v, definition gives %v", op, layNames[l], k.ctx(), got, want)
 		return false
 	}
 	switch {
@@ -227,16 +231,20 @@ func (k *setCase[T]) out(op string, l lay, got, want, d []T) bool {
 
 // inpl judges an in-place variant: same multiset as the reference result, and
 // the argument slice is still a permutation of what it held.
-func (k *setCase[T]) inpl(op string, got, want, arg []T) bool {
+func (k *setCase[T]) inpl(op, param string, got, want, arg []T) bool {
 	c := k.c
-	c.Logf("%s(%s) -> %s ; argument afterwards %s", op, k.ctx(), show(got), show(arg))
-	c.Add("calls/"+op, 1)
+	fn := op
+	op += param
+	if c.Logging() {
+		c.Logf("%s(%s) -> %s ; argument afterwards %s", op, k.ctx(), show(got), show(arg))
+	}
+	c.Add("calls/"+fn, 1)
 	if !sameMultiset(got, want) {
-		c.Failf("result/"+op, "%s(%s): got %v, definition selects the multiset %v", op, k.ctx(), got, want)
+		c.Failf("result/"+fn, "%s(%s): got %v, definition selects the multiset %v", op, k.ctx(), got, want)
 		return false
 	}
 	if !sameMultiset(arg, k.v1) {
-		c.Failf("argperm/"+op, "%s(%s): argument slice afterwards is %v, not a permutation of its original content %v", op, k.ctx(), arg, k.v1)
+		c.Failf("argperm/"+fn, "%s(%s): argument slice afterwards is %v, not a permutation of its original content %v", op, k.ctx(), arg, k.v1)
 		return false
 	}
 	if !eqSeq(arg, k.v1) {
@@ -258,7 +266,7 @@ func (k *setCase[T]) runAll(lays func() []lay) bool {
 		if !c.Guard("Diff", func() { got = slicez.Diff(d, s1, s2) }) {
 			return false
 		}
-		if !k.out("Diff", ll, got, refDiff(k.v1, k.v2), d) {
+		if !k.out("Diff", "", ll, got, refDiff(k.v1, k.v2), d) {
 			return false
 		}
 	}
@@ -269,7 +277,7 @@ func (k *setCase[T]) runAll(lays func() []lay) bool {
 		if !c.Guard("Intersect", func() { got = slicez.Intersect(d, s1, s2) }) {
 			return false
 		}
-		if !k.out("Intersect", ll, got, refIntersect(k.v1, k.v2), d) {
+		if !k.out("Intersect", "", ll, got, refIntersect(k.v1, k.v2), d) {
 			return false
 		}
 	}
@@ -280,7 +288,7 @@ func (k *setCase[T]) runAll(lays func() []lay) bool {
 		if !c.Guard("Unique", func() { got = slicez.Unique(d, s1) }) {
 			return false
 		}
-		if !k.out("Unique", ll, got, refUnique(k.v1), d) {
+		if !k.out("Unique", "", ll, got, refUnique(k.v1), d) {
 			return false
 		}
 	}
@@ -291,7 +299,7 @@ func (k *setCase[T]) runAll(lays func() []lay) bool {
 		if !c.Guard("UniqueByKey", func() { got = slicez.UniqueByKey(d, s1, k.key) }) {
 			return false
 		}
-		if !k.out("UniqueByKey["+k.keyName+"]", ll, got, refUniqueByKey(k.v1, k.key), d) {
+		if !k.out("UniqueByKey", "["+k.keyName+"]", ll, got, refUniqueByKey(k.v1, k.key), d) {
 			return false
 		}
 	}
@@ -302,7 +310,7 @@ func (k *setCase[T]) runAll(lays func() []lay) bool {
 		if !c.Guard("Filter", func() { got = slicez.Filter(d, s1, k.pred) }) {
 			return false
 		}
-		if !k.out("Filter["+k.predName+"]", ll, got, refFilter(k.v1, k.pred), d) {
+		if !k.out("Filter", "["+k.predName+"]", ll, got, refFilter(k.v1, k.pred), d) {
 			return false
 		}
 	}
@@ -313,7 +321,7 @@ func (k *setCase[T]) runAll(lays func() []lay) bool {
 		if !c.Guard("DiffInPlaceFirst", func() { got = slicez.DiffInPlaceFirst(s1, s2) }) {
 			return false
 		}
-		if !k.inpl("DiffInPlaceFirst", got, refDiff(k.v1, k.v2), s1) {
+		if !k.inpl("DiffInPlaceFirst", "", got, refDiff(k.v1, k.v2), s1) {
 			return false
 		}
 	}
@@ -323,7 +331,7 @@ func (k *setCase[T]) runAll(lays func() []lay) bool {
 		if !c.Guard("IntersectInPlaceFirst", func() { got = slicez.IntersectInPlaceFirst(s1, s2) }) {
 			return false
 		}
-		if !k.inpl("IntersectInPlaceFirst", got, refIntersect(k.v1, k.v2), s1) {
+		if !k.inpl("IntersectInPlaceFirst", "", got, refIntersect(k.v1, k.v2), s1) {
 			return false
 		}
 	}
@@ -333,7 +341,7 @@ func (k *setCase[T]) runAll(lays func() []lay) bool {
 		if !c.Guard("UniqueInPlace", func() { got = slicez.UniqueInPlace(s1) }) {
 			return false
 		}
-		if !k.inpl("UniqueInPlace", got, refUnique(k.v1), s1) {
+		if !k.inpl("UniqueInPlace", "", got, refUnique(k.v1), s1) {
 			return false
 		}
 	}
@@ -343,7 +351,7 @@ func (k *setCase[T]) runAll(lays func() []lay) bool {
 		if !c.Guard("UniqueByKeyInPlace", func() { got = slicez.UniqueByKeyInPlace(s1, k.key) }) {
 			return false
 		}
-		if !k.inpl("UniqueByKeyInPlace["+k.keyName+"]", got, refUniqueByKey(k.v1, k.key), s1) {
+		if !k.inpl("UniqueByKeyInPlace", "["+k.keyName+"]", got, refUniqueByKey(k.v1, k.key), s1) {
 			return false
 		}
 	}
@@ -353,7 +361,7 @@ func (k *setCase[T]) runAll(lays func() []lay) bool {
 		if !c.Guard("FilterInPlace", func() { got = slicez.FilterInPlace(s1, k.pred) }) {
 			return false
 		}
-		if !k.inpl("FilterInPlace["+k.predName+"]", got, refFilter(k.v1, k.pred), s1) {
+		if !k.inpl("FilterInPlace", "["+k.predName+"]", got, refFilter(k.v1, k.pred), s1) {
 			return false
 		}
 	}
